@@ -93,18 +93,20 @@ def record(ctx, preset, mode, runs, blocks, seed, label):
             ctx.report("panic:" + label, "real code panicked in stakersim (%s): %s" % (label, o.strip().splitlines()[0:3]), rp)
             return None
         raise Infra("stakersim failed rc=%s: %s" % (rc, o[-2000:]))
+    cfg = json.load(open(os.path.join(out, "config.json")))
+    cfg["strict"] = "chain" not in mode         # receipts of real transactions do not carry the revert reason
     return {"dir": out, "trace": os.path.join(out, "trace.ndjson"), "argv": argv[1:],
-            "stats": json.load(open(os.path.join(out, "runs.json"))),
-            "config": json.load(open(os.path.join(out, "config.json")))}
+            "stats": json.load(open(os.path.join(out, "runs.json"))), "config": cfg}
 
 
-def trace_cfg(prop, config, strict=True):
+def trace_cfg(prop, config, strict=True, proj=True):
     c = config
     lines = ["SPECIFICATION Spec", "CONSTANTS", '  NoVal = "0x0"']
     for k in ("E", "LowP", "MedP", "HighP", "Cooldown", "EvictThreshold", "EvictInterval", "TP", "Hayabusa",
               "MinStake", "MaxStake", "WScale", "ExitMaxTry", "EvictMaxTry", "DefaultMBP"):
         lines.append("  %s = %d" % (k, c[k]))
     lines += ['  Prop = "%s"' % prop, "  StrictMsg = %s" % ("TRUE" if strict else "FALSE"),
+              "  CheckProj = %s" % ("TRUE" if proj else "FALSE"),
               "CONSTRAINT Progress", "CONSTRAINT Conforms"]
     lines += ["INVARIANT " + i for i in INV[prop]]
     lines += ["PROPERTY T_" + p for p in ACT[prop]]
@@ -124,7 +126,7 @@ def split_histories(events):
     return hs
 
 
-def run_trace_spec(ctx, prop, events, config, label, strict=True):
+def run_trace_spec(ctx, prop, events, config, label, strict=True, proj=True):
     """One TLC run over a concatenation of histories.  Returns a dict:
        consumed   number of events matched (all = accepted)
        own/other  (index, event type, text) of the first deviation in this / the other property's getters, else None
@@ -134,13 +136,13 @@ def run_trace_spec(ctx, prop, events, config, label, strict=True):
     path = os.path.join(d, "trace-%d.ndjson" % len(os.listdir(d)))
     write_ndjson(path, events)
     r = ctx.tlc(SUB, "Trace_Staker", cfg="Trace_run.cfg", workers=1, timeout=3000, heap="6g", dfs=True, count=False,
-                files={"trace.ndjson": path, "Trace_run.cfg": trace_cfg(prop, config, strict)}, label="trace:" + label)
+                files={"trace.ndjson": path, "Trace_run.cfg": trace_cfg(prop, config, strict, proj)}, label="trace:" + label)
     if r.timeout:
         raise Infra("trace validation timed out (%s, %d events)" % (label, len(events)))
     out = r.out
-    res = {"r": r, "own": None, "other": None, "invariant": None, "len": len(events),
+    res = {"r": r, "own": None, "other": None, "proj": None, "invariant": None, "len": len(events),
            "f4": [int(x) for x in re.findall(r'<<\s*"F4-OBSERVED",\s*(\d+)\s*>>', out)]}
-    for tag, key in (("MISMATCH-OWN", "own"), ("MISMATCH-OTHER", "other")):
+    for tag, key in (("MISMATCH-OWN", "own"), ("MISMATCH-OTHER", "other"), ("MISMATCH-PROJ", "proj")):
         m = re.search(r'<<\s*"%s",\s*(\d+),\s*"(\w+)",\s*(\{.*?\})\s*>>\s*\n(?=\S)' % tag, out, flags=re.S)
         if m:
             res[key] = (int(m.group(1)), m.group(2), " ".join(m.group(3).split()))
@@ -154,9 +156,9 @@ def run_trace_spec(ctx, prop, events, config, label, strict=True):
     if not m:
         raise Infra("trace spec did not report a high-water mark (TLC error: %s)\n%s" % (r.error, out[-3000:]))
     res["consumed"] = int(m[-1][0])
-    if res["consumed"] == len(events) and not res["own"] and not res["other"] and (r.error or r.rc != 0):
+    if res["consumed"] == len(events) and not res["own"] and not res["other"] and not res["proj"] and (r.error or r.rc != 0):
         raise Infra("TLC error during trace validation: %s\n%s" % (r.error, out[-3000:]))
-    if res["consumed"] < len(events) and not res["own"] and not res["other"]:
+    if res["consumed"] < len(events) and not res["own"] and not res["other"] and not res["proj"]:
         if r.error and "Postcondition" not in out:
             raise Infra("TLC evaluation error during trace validation: %s\n%s" % (r.error, out[-3000:]))
         res["stuck"] = res["consumed"]          # event not enabled in the specification
@@ -180,7 +182,8 @@ def validate_recording(ctx, prop, rec, label):
     stats = rec["stats"]
     pending = list(range(len(hists)))
     verdict = {}
-    strict = True
+    strict = rec["config"].get("strict", True)
+    proj = prop == "C17" and not ctx.cov.get("projection_drift")      # the renewal list belongs to C17's machinery
     guard = 0
     how = {"driver": "harness/cmd/stakersim", "argv": rec["argv"], "config": rec["config"]}
 
@@ -198,7 +201,7 @@ def validate_recording(ctx, prop, rec, label):
             ctx.cov["validation_stopped_early"] = "more than 12 rejected histories in batch %s" % label
             break
         evs = [e for k in pending for e in hists[k]]
-        res = run_trace_spec(ctx, prop, evs, rec["config"], label, strict)
+        res = run_trace_spec(ctx, prop, evs, rec["config"], label, strict, proj)
         # F4 observations (C17 only): report with the narrow signature, keep validating
         for i in res["f4"]:
             k, off = _locate(hists, pending, i)
@@ -253,6 +256,13 @@ def validate_recording(ctx, prop, rec, label):
                 {"batch": label, "history": k, "event": off, "type": et, "what": txt[:300]})
             bad = k
             verdict[k] = "other-property"
+        elif res["proj"]:
+            # an internal projection differs while every observable agrees: specification drift, not a violation;
+            # keep validating the observables and say so at the end (exit 2 unless a violation is found)
+            i, et, txt = res["proj"]
+            ctx.cov["projection_drift"] = "%s event %d (%s): %s" % (label, i, et, txt[:400])
+            proj = False
+            continue
         elif "stuck" in res:
             k, off = _locate(hists, pending, res["stuck"])
             ev = {x: y for x, y in hists[k][off].items() if x != "post"} if k is not None else None
@@ -275,7 +285,7 @@ def validate_recording(ctx, prop, rec, label):
 def nontrivial(prop, s):
     if prop == "C16":
         return s["activations"] > 0 and s["exits"] > 0 and s["nonzeroWithdrawals"] > 0 and s["delegations"] > 0
-    return s["activations"] > 0 and s["exits"] > 0 and s["housekeepingUpdates"] >= 3
+    return s["activations"] > 0 and s["exits"] > 0 and (s["housekeepingUpdates"] >= 3 or s["mode"] == "chain")
 
 
 RULE = {
@@ -317,6 +327,10 @@ def histories(ctx, prop, plan):
             kinds[k] = kinds.get(k, 0) + v
     ctx.cov["distinct_revert_reasons_observed"] = len(kinds)
     ctx.cov["exhaustive"] = False
+    for key in ("projection_drift", "revert_message_drift"):
+        if ctx.cov.get(key) and not ctx.violations:
+            raise Infra("specification drift (%s): every observable of the property agrees with Staker.tla but an internal "
+                        "projection / revert reason does not: %s" % (key, ctx.cov[key]))
     return all_stats
 
 
@@ -360,7 +374,7 @@ def replay(ctx, prop):
     """--replay <artefact>: validate the saved history again in this property's mode."""
     art = json.load(open(ctx.replay))
     evs = art["trace"]
-    res = run_trace_spec(ctx, prop, evs, art["config"], "replay")
+    res = run_trace_spec(ctx, prop, evs, art["config"], "replay", art["config"].get("strict", True))
     ctx.cov["evaluations"] = 1
     ctx.cov["rule"] = "replay of one saved history"
     ctx.cov["distinct_nontrivial"] = 1
@@ -381,7 +395,8 @@ ASSUMPTIONS = [
     "staking periods, cooldown and the fork block are multiples of the epoch length (as on every deployed network); "
     "housekeeping is invoked once per block through Staker.SyncPOS before any transaction of that block",
     "the driver plays the Solidity wrapper staker.sol (credit before a payable native call, roll back on revert, debit what "
-    "a withdraw returned); the wrapper's own bytecode is exercised only by the on-chain sample",
+    "a withdraw returned); the wrapper's own bytecode (staker.sol in the EVM, real transactions, packer, PoA->PoS at "
+    "genesis) is exercised by the on-chain sample (stakersim -mode chain), where revert reasons are not observable",
     "stake amounts are multiples of the trace unit (1 000 000 / 25 000 000 VET) except in the preset with unit = 1 VET, "
     "where rounding of vet*multiplier/100 is covered for a few validators (TLC integers are 32 bit)",
     "non-revert errors of the Go code (counter underflow, failed ContractBalanceCheck) are not behaviours of the model: "
